@@ -637,7 +637,9 @@ func (fr *Frame) builtin(b *ssa.Builtin, cc *ssa.CallCommon, res ssa.Value) {
 	case "copy":
 		fr.setResult(res, fr.copySlice(args[0], args[1]))
 	case "delete":
+		fr.storeRoot = cc.Args[0]
 		fr.mapDelete(args[0], args[1])
+		fr.storeRoot = nil
 	case "print", "println":
 	case "ssa:wrapnilchk":
 		fr.oblige("safe:nil", "wrapnilchk", sNot(sEq(args[0].Term, "0")), "")
